@@ -1,0 +1,126 @@
+//go:build verif
+
+// Contracts for the verification machinery in /verif (engine: govc). Comments only.
+package part
+
+// ---------------------------------------------------------------------------
+// Node header accessors (C11): flags = kind(4 bits) | unused(3) | size(9 bits).
+
+//@ spec kindOf(flags mathint) mathint = flags / 4096
+//@ spec sizeOf(flags mathint) mathint = flags % 512
+
+//@ func (*header).kind
+//@   property C11
+//@   pure
+//@   requires n != nil
+//@   ensures result == kindOf(n.flags)
+//@ func (*header).size
+//@   property C11
+//@   pure
+//@   requires n != nil
+//@   ensures result == sizeOf(n.flags)
+//@ func (*header).setKind
+//@   property C11
+//@   requires n != nil
+//@   modifies H_part_header_flags
+//@   ensures kindOf(n.flags) == k % 16 && sizeOf(n.flags) == old(sizeOf(n.flags))
+//@   ensures unchangedExcept(H_part_header_flags, n)
+//@ func (*header).setSize
+//@   property C11
+//@   requires n != nil && 0 <= size
+//@   modifies H_part_header_flags
+//@   ensures sizeOf(n.flags) == size % 512 && kindOf(n.flags) == old(kindOf(n.flags))
+//@   ensures unchangedExcept(H_part_header_flags, n)
+
+// commonPrefix: the longest common prefix of a and b, as a prefix slice of a.
+//@ func commonPrefix
+//@   property C11
+//@   pure
+//@   ensures arr(result) == arr(a) && off(result) == off(a) && len(result) <= len(a) && len(result) <= len(b)
+//@   ensures forall k int :: 0 <= k && k < len(result) ==> a[k] == b[k]
+//@   ensures len(result) == len(a) || len(result) == len(b) || a[len(result)] != b[len(result)]
+//@   loop 1 invariant 0 <= $i && $i < n && n <= len(a) && n <= len(b) && (forall k int :: 0 <= k && k < $i ==> a[k] == b[k])
+
+// ---------------------------------------------------------------------------
+// node4 / node16 (C11, C04): children[0:size) are non-nil with strictly increasing keys;
+// the unused slots hold nil children and key 255 (find() of node4 compares all four key
+// slots without looking at the size, so a stale child in an unused slot would be returned
+// for key byte 0xff).
+
+//@ spec wf4(n *node4) bool = n != nil && kindOf(n.flags) == 2 && sizeOf(n.flags) <= 4 && (forall i int :: 0 <= i && i < sizeOf(n.flags) ==> n.children[i] != nil) && (forall i int, j int :: 0 <= i && i < j && j < sizeOf(n.flags) ==> n.keys[i] < n.keys[j]) && (forall i int :: sizeOf(n.flags) <= i && i < 4 ==> n.children[i] == nil && n.keys[i] == 255)
+//@ spec wf16(n *node16) bool = n != nil && kindOf(n.flags) == 3 && sizeOf(n.flags) <= 16 && (forall i int :: 0 <= i && i < sizeOf(n.flags) ==> n.children[i] != nil) && (forall i int, j int :: 0 <= i && i < j && j < sizeOf(n.flags) ==> n.keys[i] < n.keys[j]) && (forall i int :: sizeOf(n.flags) <= i && i < 16 ==> n.children[i] == nil && n.keys[i] == 255)
+
+//@ func (*header).node4
+//@   inline
+//@ func (*header).node16
+//@   inline
+//@ func (*header).node48
+//@   inline
+//@ func (*header).node256
+//@   inline
+//@ func (*header).self
+//@   inline
+
+// remove(idx): the child at idx is dropped, the ones after it move down by one, the freed
+// slot is cleared, and the node stays well-formed.
+//@ func (*header).remove
+//@   property C11 C04
+//@   maypanic
+//@   requires n != nil && 0 <= idx && idx < sizeOf(n.flags)
+//@   requires kindOf(n.flags) == 2 ==> wf4(as(node4, n))
+//@   requires kindOf(n.flags) == 3 ==> wf16(as(node16, n))
+//@   requires kindOf(n.flags) == 2 || kindOf(n.flags) == 3
+//@   ensures @size sizeOf(n.flags) == old(sizeOf(n.flags)) - 1 && kindOf(n.flags) == old(kindOf(n.flags))
+//@   ensures @wf4 kindOf(n.flags) == 2 ==> wf4(as(node4, n))
+//@   ensures @wf16 kindOf(n.flags) == 3 ==> wf16(as(node16, n))
+//@   ensures @shift4 kindOf(n.flags) == 2 ==> (forall i int :: 0 <= i && i < idx ==> as(node4, n).children[i] == old(as(node4, n).children[i]) && as(node4, n).keys[i] == old(as(node4, n).keys[i])) && (forall i int :: idx <= i && i < sizeOf(n.flags) ==> as(node4, n).children[i] == old(as(node4, n).children[i+1]) && as(node4, n).keys[i] == old(as(node4, n).keys[i+1]))
+//@   ensures @shift16 kindOf(n.flags) == 3 ==> (forall i int :: 0 <= i && i < idx ==> as(node16, n).children[i] == old(as(node16, n).children[i]) && as(node16, n).keys[i] == old(as(node16, n).keys[i])) && (forall i int :: idx <= i && i < sizeOf(n.flags) ==> as(node16, n).children[i] == old(as(node16, n).children[i+1]) && as(node16, n).keys[i] == old(as(node16, n).keys[i+1]))
+
+// findIndex(key) on node4/node16: the position of the first key >= key (the insertion point),
+// and the child there if its key is equal.
+//@ func (*header).findIndex returns (child, i)
+//@   property C11 C04
+//@   maypanic
+//@   pure
+//@   requires n != nil
+//@   requires kindOf(n.flags) == 2 ==> wf4(as(node4, n))
+//@   requires kindOf(n.flags) == 3 ==> wf16(as(node16, n))
+//@   requires kindOf(n.flags) == 2 || kindOf(n.flags) == 3
+//@   ensures @range 0 <= i && i <= sizeOf(n.flags)
+//@   ensures @lower4 kindOf(n.flags) == 2 ==> (forall j int :: 0 <= j && j < i ==> as(node4, n).keys[j] < key) && (i < sizeOf(n.flags) ==> as(node4, n).keys[i] >= key)
+//@   ensures @hit4 kindOf(n.flags) == 2 ==> (child != nil <==> (i < sizeOf(n.flags) && as(node4, n).keys[i] == key)) && (child != nil ==> child == as(node4, n).children[i])
+//@   ensures @lower16 kindOf(n.flags) == 3 ==> (forall j int :: 0 <= j && j < i ==> as(node16, n).keys[j] < key) && (i < sizeOf(n.flags) ==> as(node16, n).keys[i] >= key)
+//@   ensures @hit16 kindOf(n.flags) == 3 ==> (child != nil <==> (i < sizeOf(n.flags) && as(node16, n).keys[i] == key)) && (child != nil ==> child == as(node16, n).children[i])
+//@   loop 1 invariant 0 <= i && i <= size && size == sizeOf(n.flags) && (forall j int :: 0 <= j && j < i ==> as(node16, n).keys[j] < key)
+
+// find(key) on node4/node16: the child whose key is equal, or nil.
+//@ func (*header).find
+//@   property C11 C04
+//@   maypanic
+//@   pure
+//@   requires n != nil
+//@   requires kindOf(n.flags) == 2 ==> wf4(as(node4, n))
+//@   requires kindOf(n.flags) == 3 ==> wf16(as(node16, n))
+//@   requires kindOf(n.flags) == 2 || kindOf(n.flags) == 3
+//@   ensures @hit4 kindOf(n.flags) == 2 ==> (forall j int :: 0 <= j && j < sizeOf(n.flags) && as(node4, n).keys[j] == key ==> result == as(node4, n).children[j])
+//@   ensures @miss4 kindOf(n.flags) == 2 && (forall j int :: 0 <= j && j < sizeOf(n.flags) ==> as(node4, n).keys[j] != key) ==> result == nil
+//@   ensures @hit16 kindOf(n.flags) == 3 ==> (forall j int :: 0 <= j && j < sizeOf(n.flags) && as(node16, n).keys[j] == key ==> result == as(node16, n).children[j])
+//@   ensures @miss16 kindOf(n.flags) == 3 && (forall j int :: 0 <= j && j < sizeOf(n.flags) ==> as(node16, n).keys[j] != key) ==> result == nil
+
+// insert(idx, child) on node4/node16 with room: child goes to position idx with its key,
+// the children from idx on move up by one, the node stays well-formed.
+//@ spec keyOf(c *header) mathint = *c.prefixP
+//@ func (*header).key
+//@   inline
+//@ func (*header).insert
+//@   property C11 C04
+//@   maypanic
+//@   requires n != nil && child != nil && child.prefixP != nil && 0 <= idx && idx <= sizeOf(n.flags)
+//@   requires kindOf(n.flags) == 2 ==> wf4(as(node4, n)) && sizeOf(n.flags) < 4 && (idx > 0 ==> as(node4, n).keys[idx-1] < keyOf(child)) && (idx < sizeOf(n.flags) ==> keyOf(child) < as(node4, n).keys[idx])
+//@   requires kindOf(n.flags) == 3 ==> wf16(as(node16, n)) && sizeOf(n.flags) < 16 && (idx > 0 ==> as(node16, n).keys[idx-1] < keyOf(child)) && (idx < sizeOf(n.flags) ==> keyOf(child) < as(node16, n).keys[idx])
+//@   requires kindOf(n.flags) == 2 || kindOf(n.flags) == 3
+//@   ensures @size sizeOf(n.flags) == old(sizeOf(n.flags)) + 1 && kindOf(n.flags) == old(kindOf(n.flags))
+//@   ensures @wf4 kindOf(n.flags) == 2 ==> wf4(as(node4, n)) && as(node4, n).children[idx] == child && as(node4, n).keys[idx] == old(keyOf(child))
+//@   ensures @wf16 kindOf(n.flags) == 3 ==> wf16(as(node16, n)) && as(node16, n).children[idx] == child && as(node16, n).keys[idx] == old(keyOf(child))
+//@   ensures @shift4 kindOf(n.flags) == 2 ==> (forall i int :: 0 <= i && i < idx ==> as(node4, n).children[i] == old(as(node4, n).children[i])) && (forall i int :: idx < i && i < sizeOf(n.flags) ==> as(node4, n).children[i] == old(as(node4, n).children[i-1]))
+//@   ensures @shift16 kindOf(n.flags) == 3 ==> (forall i int :: 0 <= i && i < idx ==> as(node16, n).children[i] == old(as(node16, n).children[i])) && (forall i int :: idx < i && i < sizeOf(n.flags) ==> as(node16, n).children[i] == old(as(node16, n).children[i-1]))
